@@ -1961,9 +1961,9 @@ fn main() {
                             r.unit_fn = matches!(&sig.output, ReturnType::Default);
                             let inner = r.render_block_inner(b);
                             if r.tail_bound {
-                                format!("{{{} }}", inner)
+                                format!("{{ /*@BEGIN@*/{} }}", inner)
                             } else {
-                                format!("{{{} /*@END@*/ }}", inner)
+                                format!("{{ /*@BEGIN@*/{} /*@END@*/ }}", inner)
                             }
                         }
                     }
